@@ -94,7 +94,8 @@ Definition mismatches_C07 := mism false pi_reuse.
 Definition propfail_C07 := pfail (fun x calls => check_C07_group x calls && check_C07_exact x calls).
 Definition mismatches_C08 := mism false pi_k8s.       Definition propfail_C08 := pfail check_C08_group.
 Definition mismatches_C09 := mism false pi_writes.    Definition propfail_C09 := pfail check_C09_group.
-Definition mismatches_C10 := mism false pi_removal.   Definition propfail_C10 := pfail check_C10_group.
+Definition mismatches_C10 := mism false pi_removal.
+Definition propfail_C10 := pfail (fun x calls => check_C10_group x calls && check_C10_reuse x calls).
 Definition mismatches_C11 := mism true pi_writes.     Definition propfail_C11 := pfail check_C11_group.
 Definition mismatches_C12 := mism false full.         Definition propfail_C12 := pfail check_C12_group.
 Definition mismatches_C15 := mism false pi_updates.   Definition propfail_C15 := pfail check_C15_group.
